@@ -28,6 +28,8 @@
 #include <unistd.h>
 #include <vnacal.h>
 #include <vnaproperty.h>
+#include "archdep.h"
+#include "vnacal_internal.h"
 #include "vf.h"
 #include "pm.h"
 
@@ -724,6 +726,33 @@ static void run_vnacal_tree(int tier, long idx, vf_result *r)
 	vf_fail(r, "build:vnacal", "%s", why);
 	goto out;
     }
+    /*
+     * A second calibration that never had a property, saved after the one
+     * that has: what the first one carries must not reach it.
+     */
+    {
+	vnacal_layout_t vl;
+	vnacal_calibration_t *cal;
+
+	_vnacal_layout(&vl, VNACAL_T8, 1, 1);
+	cal = _vnacal_calibration_alloc(vcp, VNACAL_T8, 1, 1, 2,
+		VL_ERROR_TERMS(&vl));
+	if (cal == NULL) {
+	    vf_fail(r, "build:vnacal", "calibration allocation failed");
+	    goto out;
+	}
+	cal->cal_frequency_vector[0] = 1.0e9;
+	cal->cal_frequency_vector[1] = 2.0e9;
+	for (int t = 0; t < VL_ERROR_TERMS(&vl); ++t)
+	    for (int f = 0; f < 2; ++f)
+		cal->cal_error_term_vector[t][f] = t % 3 == 0 ? 1.0 : 0.01;
+	cal->cal_z0 = 50.0;
+	if (_vnacal_add_calibration_common("c14", vcp, cal, "bare") == -1) {
+	    _vnacal_calibration_free(cal);
+	    vf_fail(r, "build:vnacal", "adding the bare calibration failed");
+	    goto out;
+	}
+    }
     /* what was built is the document */
     for (int which = 0; which < 2; ++which) {
 	pm_buf_reset(&want);
@@ -796,6 +825,22 @@ static void run_vnacal_tree(int tier, long idx, vf_result *r)
 			"%d ('%c') count %d, document type '%c' count %d",
 			which ? "calibration" : "global", ty,
 			ty > 0 ? ty : '-', cn, wty > 0 ? wty : '-', wcn);
+	}
+    }
+    {
+	int cib = vnacal_find_calibration(vcp2, "bare");
+	vnaproperty_t *t;
+
+	if (cib < 0)
+	    vf_fail(r, "vnacal:load-failed", "calibration 'bare' missing "
+		    "after save/load");
+	else if ((t = vnacal_property_get_subtree(vcp2, cib, ".")) != NULL ||
+		vnacal_property_type(vcp2, cib, ".") != -1) {
+	    pm_buf_reset(&got);
+	    (void)pm_walk(t, &got, why, sizeof(why), 0);
+	    vf_fail(r, "vnacal:roundtrip-bare-calibration", "a calibration "
+		    "that never had a property has %.300s after "
+		    "vnacal_save/vnacal_load", pm_show(pm_buf_str(&got)));
 	}
     }
     if (r->outcome[0] == '\0')
